@@ -389,6 +389,15 @@ def oracle(case, sc, o):
                         'suffixes nsol/npool are given a value although the problem has no objective (model without objective, or error before '
                         'the problem is populated): SetValue(0, …) on an empty suffix' % d))
             return dev
+        if o['kind'] == 'crash' and o.get('frame') in ('VisitPowConstBase', 'VisitPowConstExp'):
+            dev.append(('crash:pow-constant-operand', 'crash (%s) in ProblemFlattener::%s: Cast<NumericConstant>(operand).value() on an operand that is not a '
+                        'NumericConstant node ((1+1)^x through VisitPow; opcodes 76/78 with a non-constant "constant" operand)' % (d, o.get('frame'))))
+            return dev
+        if o['kind'] == 'crash' and o.get('frame') == 'PLPoints':
+            dev.append(('crash:PLPoints-empty-integer-domain', 'crash (%s) in PLPoints::PLPoints(const PLSlopes&) (piecewise_linear.cpp:1147): '
+                        'BasicPLApproximator::ConsiderIntegrality clears the breakpoints when the integer argument has no integer value in the '
+                        '(clipped) domain, the empty PL function is then indexed at [1]' % d))
+            return dev
         if o['kind'] == 'crash' and o.get('frame') == 'name' and sc.get('names_first_empty'):
             dev.append(('crash:NameProvider-empty-first-line', 'crash (%s) in NameProvider::name: the first line of the .col/.row file is empty and *(pos1past-1) reads '
                         'one byte before the file mapping (layout dependent)' % d))
@@ -1064,6 +1073,10 @@ def corpus_cases(cg):
     m0 = nlgen.Model(); m0.var(0, 10); m0.var(0, 10, True); m0.con(1, None, {0: 1, 1: 1})
     c = cg.base('corpus:counterexample_nsol_no_objective', m0); c['natural'] = 'none'; c['options'] = [('sol:count=1', 'o')]; c['all_opts'] = c['options']; out.append(c)
     mk('nsol_with_option_error', options=[('sol:stub=@DIR@/alt', 'o'), ('foo=1', 'b')])
+    m1 = nlgen.Model(); m1.var(-1, 4, True); m1.con(3, None, {}, ('log10', ('v', 0))); m1.obj('min', {}, ('atanh', ('v', 0)))
+    c = cg.base('corpus:counterexample_plpoints_empty_integer_domain', m1); c['natural'] = None; c['all_opts'] = []; out.append(c)
+    m2 = nlgen.Model(); m2.var(0, 3); m2.obj('min', {0: 1}); m2.con(None, 5, {}, ('pow', ('+', ('n', 1), ('n', 1)), ('v', 0)))
+    c = cg.base('corpus:counterexample_pow_constant_expression_base', m2); c['natural'] = None; c['all_opts'] = []; out.append(c)
     mk('exe_options_var', env={'@EXE@_options': 'cvt:bigM=5', 'recsolver_options': 'foo=1'}, all_opts=[('cvt:bigM=5', 'o')])
     mk('exe_options_var_bad', env={'@EXE@_options': 'foo=1'}, all_opts=[('foo=1', 'b')])
     mk('exe_alias_exe', exe_alias='rs.exe', env={'@EXE@_options': 'foo=1'}, all_opts=[('foo=1', 'b')])
@@ -1126,6 +1139,9 @@ def evaluate(case, r):
     if case.get('inject'):
         cands.append(case['inject'])
     fault = min(cands, key=lambda f: STAGES.index(f[0])) if cands else None
+    # the injection site 'extras' (SetInterrupter) is passed before ExportModel: it precedes a failing tech:writemodel
+    if fault and case.get('inject') and case['inject'][0] == 'extras' and fault != case['inject'] and fault[0] == 'extras':
+        fault = case['inject']
     # an injected 'convert' fault fires when the model is pushed to the ModelAPI, i.e. after a natural conversion failure
     if fault and case.get('inject') and fault == case['inject'] and fault[0] == 'convert':
         others = [f for f in cands if f != fault and f[0] == 'convert']
@@ -1561,7 +1577,7 @@ def run(ck):
                          'model "%s", driver "%s" (scenario: %s)' % (len(inferred_dis), mo, ob, l), rp, found_input=False)
     elif inferred_dis:
         ck.notes.append('%d run(s) with an ending inferred from the diagnostic class disagree with the model while satisfying the property '
-                        '(classifier ambiguity), e.g. %s => model "%s", driver "%s"' % (len(inferred_dis),) + inferred_dis[0][:3])
+                        '(classifier ambiguity), e.g. %s => model "%s", driver "%s"' % ((len(inferred_dis),) + tuple(inferred_dis[0][:3])))
     ck.cov.update({
         'evaluations': len(cases),
         'traces_validated_against_impl': n_cmp,
